@@ -19,7 +19,8 @@ def matcher_classes(ctx):
         if c.external or c.module.name not in MATCHER_MODULES:
             continue
         owner, f = ctx.classes.resolve_method(c, "match")
-        if isinstance(f, FUNC_TYPES) and owner is not None and not owner.external:
+        # (a def, or a method made in a class body: match = factory(...))
+        if (isinstance(f, FUNC_TYPES) or isinstance(f, (ast.Call, ast.Lambda, ast.Name, ast.Attribute))) and owner is not None and not owner.external:
             out.append(c)
     for m in MATCHER_MODULES:
         ctx.repo.module(m)
@@ -89,6 +90,11 @@ def is_mismatch_ctor(ctx, module, call):
 TEXT_CALLS = {"repr", "str", "text_repr", "pformat", "_format", "format", "_error_repr", "_format_matcher_dict", "_details_to_str", "_format_text_attachment", "oct", "chr"}
 
 
+BOOL_METHODS = {"startswith", "endswith", "isdigit", "isalpha", "isalnum", "isspace", "islower", "isupper", "issubset", "issuperset", "isdisjoint", "exists", "isdir", "isfile",
+                "is_dir", "is_file", "islink"}
+BOOL_FUNCTIONS = {"isinstance", "issubclass", "callable", "hasattr", "bool", "any", "all"}
+
+
 def expr_kind(ctx, module, func, e, depth=0):
     """Return-kind inference (E7): None / Mismatch / Delegate / Text / Bool / Collection / Number / Other."""
     if e is None:
@@ -117,6 +123,8 @@ def expr_kind(ctx, module, func, e, depth=0):
             if "Text" in l or "Text" in r:
                 return {"Text"}
         return {"Other"}
+    if isinstance(e, ast.Call) and ((isinstance(e.func, ast.Attribute) and e.func.attr in BOOL_METHODS) or (isinstance(e.func, ast.Name) and e.func.id in BOOL_FUNCTIONS)):
+        return {"Bool"}   # a predicate of the standard library: True or False
     if isinstance(e, ast.IfExp):
         return expr_kind(ctx, module, func, e.body, depth) | expr_kind(ctx, module, func, e.orelse, depth)
     if isinstance(e, ast.BoolOp):
